@@ -50,7 +50,7 @@ def main():
     created = catalog.create_all(exe, outdir)
     supported = list(range(18))            # the 18 supported versions (enumerators 0..17); 18 = 3.0.0 is upstream work in progress
     # 3.0.0 (enumerator 18) is not among the 18 supported versions but the library can create and verify it: covered in the thorough tier when the library creates it
-    if TIER == 'quick': todo = [0, 10, 11, 17]
+    if TIER == 'quick': todo = [0, 5, 10, 11, 17]      # oldest, 1.13.1 (the only version that declares columns without a type: seeded change C17-4), newest 1.x, oldest and newest 2.x
     else: todo = supported + ([18] if 18 in created else [])
     if os.environ.get('VERIF_C17_SCHEMAS'): todo = [int(x) for x in os.environ['VERIF_C17_SCHEMAS'].split(',')]       # development aid
     ck.extra['library_build_s'] = round(time.time() - t0, 1)
